@@ -23,6 +23,8 @@ fn main() {
             runner::run_child(&args[1..], |ctx| checks::shard_for(&id, ctx).unwrap_or_default())
         }
         Some("replay") if args.len() >= 2 => pv::replay::replay(std::path::Path::new(&args[1])),
+        Some("c07strace") if args.len() >= 4 => checks::c07::strace_main(&args[1..]),
+        Some("c08san") => checks::c08::san_main(&args[1..]),
         Some("c06child") if args.len() >= 4 => checks::c06_kill::child_main(&args[1..]),
         Some("c06verify") if args.len() >= 3 => checks::c06_kill::verify_main(&args[1..]),
         _ => usage(),
